@@ -25,6 +25,11 @@ def gen_features(rng):
 
 def gen_snetop(rng, nnodes):
     a, b = rng.randrange(nnodes), rng.randrange(nnodes)
+    if rng.random() < 0.14:
+        # delay settings change in the middle of a script, in both orders (set_delay after set_delays and back)
+        if rng.random() < 0.5:
+            return "DELAY %d" % f64_bits(rng.choice([0.0, 0.5, 1.0, 2.0, 5.0]))
+        return "DELAYS %d %d" % (f64_bits(rng.choice([0.0, 0.5, 1.0])), f64_bits(rng.choice([1.0, 2.0, 3.5])))
     r = rng.random()
     if r < 0.12:
         return "DROPIN %d" % a
